@@ -115,10 +115,12 @@ bool World::feed_one_pending() {
 void World::flush_pending() { while (feed_one_pending()) {} }
 
 void World::feed_batch_errors_before(int fd) {
-	// error/hang-up entries of the current batch produce no read: they are processed, in batch order, before the entry for `fd`
+	// error/hang-up entries of the current batch that were handled without a read are processed, in batch order, before the entry for `fd`.
+	// An entry that reports data together with a hang-up or an error may be read first (the end then shows in the result of read()) or be
+	// handled as an error at once: the daemon's own calls decide, the harness does not assume either.
 	if (fd >= 0) { bool in_batch = false; for (auto &b : batch) if (b.fd == fd) in_batch = true; if (!in_batch) return; }
 	for (auto &b : batch) {
-		if (b.fd == fd && !(b.mask & (EPOLLERR | EPOLLHUP))) { b.fed = true; break; }
+		if (b.fd == fd) { b.fed = true; break; }
 		if (b.fed) continue;
 		b.fed = true;
 		if (!(b.mask & (EPOLLERR | EPOLLHUP))) continue;
@@ -136,11 +138,11 @@ bool World::feed_next_batch_error() {
 	// the daemon handles batch entries in order; an error/hang-up entry makes no read, so its start is inferred
 	for (auto &b : batch) {
 		if (b.fed) continue;
-		if (!(b.mask & (EPOLLERR | EPOLLHUP))) {
+		{
 			KFd *kk = g_kernel.get(b.fd);
-			if ((b.mask & EPOLLIN) && kk && kk->open && kk->in_epoll) return false; // that entry has not been started yet
-			b.fed = true; continue;                // writable-only entries need no system call
+			if ((b.mask & EPOLLIN) && kk && kk->open && kk->in_epoll) return false; // that entry has not been started yet (readable entries are read, with or without a hang-up bit)
 		}
+		if (!(b.mask & (EPOLLERR | EPOLLHUP))) { b.fed = true; continue; }               // writable-only entries need no system call
 		b.fed = true;
 		KFd *k = g_kernel.get(b.fd);
 		if (!k || k->kind != FD_STREAM) continue;
